@@ -69,7 +69,8 @@ Lemma K_hdist w l1 f1 l2 f2 v eps :
   Rabs (hdist (l1, f1) (l2, f2) - v) <= eps.
 Proof.
   intros Hw Hpos H. unfold hdist. rewrite (ensure_edge_bounds_w w) by exact Hw. cbn [fst snd].
-  unfold hdist_raw, lon, lat; cbn [fst snd]. rewrite atan2_pos by (apply sqrt_lt_R0; exact Hpos).
+  unfold hdist_raw, lon, lat; cbn [fst snd]. rewrite Rmax_right by lra.
+  rewrite atan2_pos by (apply sqrt_lt_R0; exact Hpos).
   exact H.
 Qed.
 
